@@ -166,13 +166,14 @@ CHECKS = {
               "transactions per sequence, each finished at most once by the caller), on the in-memory store's real transactions (verif hook) and on the serial fallback over a plain map store. Map model: Commit returns one result per call, "
               "in call order, ids equal to the ids the calls returned and never reused; each Get returns the value of earlier Sets of this and of earlier transactions (ErrNotExist if none); a handler error becomes that op's Err; calls after an "
               "abort change nothing; afterwards a fresh transaction opens and commits within the watchdog and the store read back directly equals the model. isolation leg: 1-3 writer and 1-3 reader transactions parked inside handlers by the harness: "
-              "never two inside at once, no torn read, no torn final state. non-trivial = >=3 calls with >=1 Set; every isolation case"),
+              "never two inside at once, no torn read, no torn final state. refused leg: T1 open on the real in-memory store (wrapped so that the next 1, 2, 3 or all Transaction() calls fail) has read k1; a second caller asks keyvalue.TransactionOrSerial or runs an FS write / remove / rename of k2 and uses whatever it is handed; T1 then reads k1 and k2 again: all three reads are the initial value. non-trivial = >=3 calls with >=1 Set; every isolation case"),
         assumptions=["what Commit returns for an aborted transaction is not pinned (only that the store is unchanged by later calls and stays usable)", "a second explicit Commit/Abort by the caller is API misuse and not generated"],
         legs=[
             dict(name="mem", run="^TestMemTxn$", quick=2000, thorough=20000, shards=4),
             dict(name="serial", run="^TestSerialTxn$", quick=2000, thorough=20000, shards=4),
             dict(name="isolation", run="^TestIsolation$", quick=100, thorough=1000, shards=4),
             dict(name="stale", run="^TestStale$", quick=60, thorough=400, shards=4, quick_shards=2),
+            dict(name="refused", run="^TestRefused$", quick=200, thorough=2000, shards=2),
         ],
     ),
     "C14": dict(
@@ -251,7 +252,7 @@ CHECKS = {
               "serial leg: the program runs on keyvalue.FS over the REAL in-memory store (verif hook) under a cooperative scheduler whose yield points sit before every store transaction and before every blob operation made outside a transaction; 12 rapid-drawn schedules per program; "
               "the outcome (every operation's result + final tree) must be among the outcomes of all program-order-respecting sequential orders (<=1680, computed on fresh mem.FS instances). dfs leg: per program EVERY schedule with <=2 pre-emptions. independence leg: threads confined to disjoint subtrees, "
               "every <=2-pre-emption schedule must give exactly the solo results and the union tree. free leg: the same programs on real goroutines, 20 repetitions (under the race detector in the thorough tier): no panic, no deadlock, no race report. "
-              "Known findings are listed per CLASS = (operation kinds of a cross-thread pair, strongest path relation same / parent-child / siblings), 60 classes, each with a recorded witness program + schedule that its regression probe replays (harness/c15/witnesses.json): found by complete enumeration of all (1 operation || 1 operation) and (1 operation || 2 operations) programs over 5 set-ups under every <=2-pre-emption schedule (446k programs, 9.5M schedules). The serializability legs construct programs none of whose cross-thread pairs falls in a listed class (every next operation is drawn from the compatible candidates); the other ~100 same-path / ancestor classes and all sibling classes are searched. storm leg: 2..4 goroutines, each with its own handle on one file, repeat a generated body of Truncate / Write / read operations 300 times on real cores, 3 repetitions (windows inside one blob operation, below the scheduler's granularity): everything finishes, nothing panics, the file stays usable and Stat size == bytes read. observers leg: thread 0 issues ONE mutating operation (mkdir, mkdirall, create, exclusive create, remove, rename, chmod, open with O_CREATE / O_TRUNC, over {a, b, a/b, a/c, b/c, b/c/d} and six set-ups), 1..2 other threads only observe (1..3 of stat, readdir, cat over {., a, b, a/b, a/c}); EVERY schedule with <=2 pre-emptions; since observers change nothing, a non-sequential outcome is an intermediate state of the one operation (or a torn listing) made visible, identified by operation, what its paths hold in the set-up state, and whether a listing observes. "
+              "Known findings are listed per CLASS = (operation kinds of a cross-thread pair, strongest path relation same / parent-child / siblings), 60 classes, each with a recorded witness program + schedule that its regression probe replays (harness/c15/witnesses.json): found by complete enumeration of all (1 operation || 1 operation) and (1 operation || 2 operations) programs over 5 set-ups under every <=2-pre-emption schedule (446k programs, 9.5M schedules). The serializability legs construct programs none of whose cross-thread pairs falls in a listed class (every next operation is drawn from the compatible candidates); the other ~100 same-path / ancestor classes and all sibling classes are searched. storm leg: 2..4 goroutines, each with its own handle on one file, repeat a generated body of Truncate / Write / read operations 300 times on real cores, 3 repetitions (windows inside one blob operation, below the scheduler's granularity): everything finishes, nothing panics, the file stays usable and Stat size == bytes read. dirstorm leg: 2..4 goroutines (>=1 mutator, >=1 observer), bodies of 1..4 operations repeated 300 times, 3 repetitions; mutators only rewrite records of entries that exist throughout (a/b, a/c, a/d, a/d/e) or create / remove a/v; every listing must name the permanent children, Stat of them succeeds, a/c keeps its bytes, Remove of the non-empty directories fails. observers leg: thread 0 issues ONE mutating operation (mkdir, mkdirall, create, exclusive create, remove, rename, chmod, open with O_CREATE / O_TRUNC, over {a, b, a/b, a/c, b/c, b/c/d} and six set-ups), 1..2 other threads only observe (1..3 of stat, readdir, cat over {., a, b, a/b, a/c}); EVERY schedule with <=2 pre-emptions; since observers change nothing, a non-sequential outcome is an intermediate state of the one operation (or a torn listing) made visible, identified by operation, what its paths hold in the set-up state, and whether a listing observes. "
               "non-trivial = the program has a cross-thread pair on related paths (incl. siblings) of which one mutates; every independence/free case; observers: the mutator's path exists or it creates"),
         assumptions=["interleavings are explored at store-transaction and blob-operation granularity (the in-memory store serialises whole transactions under its mutex, so these are the distinguishable ones)", "the race detector leg depends on the runtime's scheduling (sampled)"],
         legs=[
@@ -262,6 +263,7 @@ CHECKS = {
             dict(name="observers-canon", run="^TestObserversCanonical$"),
             dict(name="free", run="^TestFreeRunning$", quick=80, thorough=800, shards=2),
             dict(name="storm", run="^TestBlobStorm$", quick=60, thorough=600, shards=4, quick_shards=2),
+            dict(name="dirstorm", run="^TestDirStorm$", quick=60, thorough=600, shards=4, quick_shards=2),
             dict(name="free-race", run="^TestFreeRunning$", quick=120, quick_shards=4, thorough=300, shards=8, race=True, env={"VERIF_LEG_SUFFIX": "-race"}),
         ],
     ),
